@@ -361,14 +361,286 @@ def c16(prop, tier, seed, t0):
     return automata_check(prop, tier, seed, t0, {"C16"}, acampaigns.campaign_c16(seed, tier))
 
 
-REGISTRY = {"C11": c11, "C12": c12, "C13": c13, "C14": c14, "C15": c15, "C16": c16, "C01": c01, "C02": c02, "C03": c03, "C04": c04, "C05": c05, "C06": c06, "C07": c07, "C08": c08, "C09": c09, "C10": c10, "C18": c18, "C19": c19}
+# --------------------------------------------------------------------------- C17
+def _registry_cfg(work, name, threads, calls, locked, extra):
+    p = work.path(name)
+    with open(p, "w") as f:
+        f.write("SPECIFICATION Spec\nCONSTANTS Threads = {%s}\n          Calls = %d\n          Locked = %s\n%sCHECK_DEADLOCK FALSE\n"
+                % (",".join(str(i) for i in range(1, threads + 1)), calls, "TRUE" if locked else "FALSE", extra))
+    return p
+
+
+def _registry_schedules(work, threads, calls, locked):
+    cfg = _registry_cfg(work, "dump-%d-%d-%d.cfg" % (threads, calls, locked), threads, calls, locked, "INVARIANT DumpTerminal\n")
+    r = vlib.tlc_run(work.dir, "Registry.tla", cfg, workers=1, timeout=600)
+    if r["rc"] != 0:
+        raise Infra("Registry schedule dump failed:\n" + r["out"][-2000:])
+    scheds = []
+    for m in re.finditer(r'<<"SCHED", "(.*)">>', r["out"]):
+        scheds.append(json.loads(m.group(1).replace('\\"', '"')))
+    return scheds, r
+
+
+def _tsan_reports(err):
+    """-> list of (function, location) per ThreadSanitizer report, from frames inside /repo"""
+    reps = []
+    for block in err.split("WARNING: ThreadSanitizer:")[1:]:
+        funcs = re.findall(r"#\d+ (\S+) (/repo/\S+?)(?::\d+)*? ", block)
+        top = funcs[0][0] if funcs else "?"
+        loc = "?"
+        m = re.search(r"Location is global '([^']+)'", block)
+        if m:
+            loc = "global " + m.group(1)
+        elif "Location is heap block" in block:
+            am = re.search(r"Location is heap block.*?(#\d+ .*?\n)(?:\s+#\d+ (\S+) (/repo/\S+))", block, re.S)
+            allocs = re.findall(r"#\d+ (\S+) /repo/", block.split("Location is heap block")[1])
+            loc = "heap block allocated in " + (allocs[0] if allocs else "?")
+        kind = block.strip().split("\n")[0].strip()
+        infuncs = sorted(set(f for f, _ in funcs))
+        reps.append({"kind": kind, "top": top, "loc": loc, "funcs": infuncs})
+    return reps
+
+
+def _known_c17(sig_kind, detail):
+    for k in vlib.load_known_findings():
+        if k.get("property") == "C17" and k.get("status") == "open" and k.get("signature", {}).get("kind") == sig_kind:
+            sig = k["signature"]
+            if sig_kind == "tsan-race":
+                if detail["top"] == sig.get("function") and detail["loc"] in sig.get("locations", []) \
+                        and all(f in sig.get("functions_allowed", [sig.get("function")]) for f in detail["funcs"][:1]):
+                    return k
+            elif sig_kind == "schedule":
+                return k
+    return None
+
+
+def c17(prop, tier, seed, t0):
+    import random
+    vlib.PRIMARY[0] = prop
+    work = vlib.Work(prop)
+    viol = []      # (why, replay path)
+    known = {}
+    mcs = []
+    os.makedirs(os.path.join(vlib.OUT, "replays"), exist_ok=True)
+
+    # (a1) the design: Registry as coded (no lock) vs with a lock
+    cfg = _registry_cfg(work, "reg-unlocked.cfg", 2, 2, False, "INVARIANT NoSharedRecord NoLostState\n")
+    r = vlib.tlc_run(work.dir, "Registry.tla", cfg, workers=4, timeout=600)
+    model_loses = "Invariant NoLostState is violated" in r["out"]
+    if "Invariant NoSharedRecord is violated" in r["out"]:
+        raise Infra("Registry model violates NoSharedRecord: specification error")
+    mcs.append({"module": "Registry.tla", "cfg": "unlocked 2x2", "states": r["distinct"], "transitions": r["generated"],
+                "result": "NoLostState violated (lost update)" if model_loses else "holds"})
+    cfgl = _registry_cfg(work, "reg-locked.cfg", 2 if tier == "quick" else 3, 2, True, "INVARIANT NoSharedRecord NoLostState\n")
+    mcs.append(mc_step(work, "Registry.tla", "reg-locked.cfg", workers=4))
+
+    # (a2) every maximal schedule of the model forced through the yield hooks on real threads
+    plans = [(2, 2)] if tier == "quick" else [(2, 2), (2, 3), (3, 1)]
+    binp = vlib.build_registry("asan")
+    nsched = 0
+    matched = 0
+    lost_known = 0
+    for threads, calls in plans:
+        scheds, rr = _registry_schedules(work, threads, calls, False)
+        mcs.append({"module": "Registry.tla", "cfg": "dump %dx%d" % (threads, calls), "states": rr["distinct"], "transitions": rr["generated"]})
+        lines = ["THREADS %d" % threads, "CALLS %d" % calls]
+        for sc in scheds:
+            lines.append("SCHED " + " ".join(str(st[0]) for st in sc["steps"]))
+        sp, tp = work.path("sched-%d-%d.script" % (threads, calls)), work.path("sched-%d-%d.ndjson" % (threads, calls))
+        with open(sp, "w") as f:
+            f.write("\n".join(lines) + "\n")
+        rc, so, se = vlib.sh([binp, "sched", sp, tp], timeout=900, env={"ASAN_OPTIONS": "detect_leaks=0"})
+        if rc != 0:
+            rp = os.path.join(vlib.OUT, "replays", "C17-%s-sched-%d-%d.script" % (seed, threads, calls))
+            with open(rp, "w") as f:
+                f.write("# replay property=C17 kind=registry-sched check=C17\n" + "\n".join(lines) + "\n")
+            viol.append(("forced schedules: harness rc=%s %s" % (rc, _san_summary(se)), rp))
+            continue
+        tcfg = _registry_cfg(work, "trace-%d-%d.cfg" % (threads, calls), threads, calls, False,
+                             "CONSTRAINT AlongRecorded\nINVARIANT Conformance\nPOSTCONDITION AllMatched\n")
+        rt = vlib.tlc_run(work.dir, "RegistryTrace.tla", tcfg, workers=1, env={"TRACE": tp}, timeout=900)
+        m = re.search(r'<<"MATCHED", (\d+), "OF", (\d+)>>', rt["out"])
+        if not m:
+            raise Infra("RegistryTrace gave no verdict:\n" + rt["out"][-2000:])
+        matched += int(m.group(1))
+        nsched += int(m.group(2))
+        mcs.append({"module": "RegistryTrace.tla", "cfg": "%dx%d" % (threads, calls), "states": rt["distinct"], "transitions": rt["generated"]})
+        unmatched = re.findall(r'<<"UNMATCHED", (\d+)>>', rt["out"])
+        if unmatched:
+            log("DRIFT: %d forced schedule(s) behaved differently from Registry.tla (judged by their observed outcome only)" % len(unmatched))
+        for tag, lns in (("LOST-NEW", re.findall(r'<<"LOST-NEW", (\d+)>>', rt["out"])), ("SHARED", re.findall(r'<<"SHARED", (\d+)>>', rt["out"]))):
+            for ln in lns[:3]:
+                rp = os.path.join(vlib.OUT, "replays", "C17-%s-%s-%s.script" % (seed, tag.lower(), ln))
+                with open(rp, "w") as f:
+                    f.write("# replay property=C17 kind=registry-sched check=C17\n%s\n%s\n%s\n" % (lines[0], lines[1], lines[int(ln) - 1]))
+                viol.append(("%s: forced schedule lost or shared an interface record outside the recorded finding" % tag, rp))
+        lk = re.findall(r'<<"LOST-KNOWN", (\d+)>>', rt["out"])
+        if lk:
+            k = _known_c17("schedule", None)
+            if k:
+                known[k["what"]] = k
+                lost_known += len(lk)
+            else:
+                ln = lk[0]
+                rp = os.path.join(vlib.OUT, "replays", "C17-%s-lost-%s.script" % (seed, ln))
+                with open(rp, "w") as f:
+                    f.write("# replay property=C17 kind=registry-sched check=C17\n%s\n%s\n%s\n" % (lines[0], lines[1], lines[int(ln) - 1]))
+                viol.append(("forced schedule loses an interface record (overlapping first frames)", rp))
+
+    # (a3) happens-before race detection, threads released together by a barrier
+    tbin = vlib.build_registry("tsan")
+    race_runs = 0
+    race_reports = 0
+    for mode in ("first", "warm"):
+        for rep in range(3 if tier == "quick" else 20):
+            tp = work.path("race-%s-%d.ndjson" % (mode, rep))
+            nth = 2 if rep % 2 == 0 else 3
+            rc, so, se = vlib.sh([tbin, "race", "60", tp, mode, str(nth)], timeout=300,
+                                 env={"TSAN_OPTIONS": "halt_on_error=0 report_signal_unsafe=0 exitcode=0"})
+            race_runs += 1
+            if rc != 0:
+                viol.append(("race run (%s) failed rc=%s: %s" % (mode, rc, se[-300:]), "bin/check-c17-race-%s" % mode))
+                continue
+            for d in _tsan_reports(se):
+                race_reports += 1
+                k = _known_c17("tsan-race", d) if mode == "first" else None
+                if k:
+                    known[k["what"]] = k
+                    continue
+                rp = os.path.join(vlib.OUT, "replays", "C17-%s-race-%s.script" % (seed, mode))
+                with open(rp, "w") as f:
+                    f.write("# replay property=C17 kind=registry-race check=C17\n# %s\nRACE %s %d\n" % (json.dumps(d), mode, nth))
+                if not any(v[1] == rp for v in viol):
+                    viol.append(("ThreadSanitizer: %s in %s on %s (mode %s)" % (d["kind"], d["top"], d["loc"], mode), rp))
+
+    # (b) sequential interleavings: each interface's trace equals the trace its history produces alone
+    rbin = vlib.build_responder("asan")
+    rng = random.Random(seed)
+    npairs = 12 if tier == "quick" else 300
+    check = {"C02", "C03", "C05", "C06", "C07", "C08", "EQ"}
+    seq_events = 0
+    seq_ok = 0
+    for pi in range(npairs):
+        bad, n = _c17_pair(work, rbin, check, rng.randrange(1 << 30), pi)
+        seq_events += n
+        if bad:
+            viol.append(bad)
+        else:
+            seq_ok += 1
+
+    for what in known:
+        print("KNOWN-FINDING: property=C17 %s" % what)
+    for why, rp in viol[:8]:
+        print("VIOLATION property=C17 replay=%s" % rp)
+        log(why)
+    cov = {"states": sum(m["states"] for m in mcs), "transitions": sum(m["transitions"] for m in mcs),
+           "traces_validated_against_impl": matched + seq_ok,
+           "evaluations": nsched + race_runs + seq_events, "distinct_nontrivial": nsched + seq_ok,
+           "rule": "every maximal schedule of Registry.tla (threads x calls per plan) forced through the yield hooks of lltd_state_for_iface on real threads and matched "
+                   "against the model by RegistryTrace.tla; TSan runs with threads released by a barrier (first frames racing / registry warmed up); pairs of random "
+                   "histories interleaved on two interfaces, each interface validated against Responder with Check=%s and compared bytewise with its solo run" % ",".join(sorted(check)),
+           "samples": [{"forced_schedules": nsched, "matched": matched, "lost_known": lost_known, "tsan_runs": race_runs, "tsan_reports": race_reports,
+                        "sequential_pairs": npairs, "sequential_ok": seq_ok}],
+           "model_checking": mcs, "known_findings_seen": sorted(known), "exhaustive": False}
+    vlib.write_evidence(prop, tier, seed, "model_checking", cov, ASSUME_COMMON + [
+        "thread schedules are forced at the yield hooks (registry.lookup / link / publish) added to lltd_state_for_iface under LLTD_VERIF_HOOKS; published records are never written again, "
+        "so the list walk is atomic with the head read",
+        "ThreadSanitizer (happens-before) makes the race verdict schedule-independent; reports are attributed by their top frame inside /repo"],
+        time.time() - t0, len(viol))
+    log("C17: %d forced schedules (%d matched, %d lost-known), %d race runs (%d reports), %d/%d sequential pairs ok, %d violation(s), %d known, %.1fs"
+        % (nsched, matched, lost_known, race_runs, race_reports, seq_ok, npairs, len(viol), len(known), time.time() - t0))
+    if not viol:
+        work.cleanup()
+    return 1 if viol else 0
+
+
+def _c17_pair(work, rbin, check, seed, idx):
+    """history h1 on interface 1 and h2 on interface 2, interleaved in one process; each also alone
+    in its own process.  The three traces are zipped (interleaved event, then the solo event with
+    eq=1 on a shadow interface id) and validated by TLC."""
+    import random
+    rng = random.Random(seed)
+    mtu = rng.choice(campaigns.MTUS)
+    own = [None, campaigns.OWN, campaigns.PEER]
+    hs = [None,
+          campaigns.Hist(random.Random(seed + 1), own=own[1], mtu=mtu, wild=0.1).frames(40),
+          campaigns.Hist(random.Random(seed + 2), own=own[2], mtu=mtu, wild=0.1).frames(40)]
+
+    def script(which):
+        from framegen import Script
+        s = Script()
+        campaigns.std_cfg(s)
+        for i in (1, 2):
+            if i in which:
+                s.boot(i, own[i], mtu=mtu, wifi=i - 1, fill=0xA5, **campaigns.attrs_default(wifi=i - 1))
+        if len(which) == 2:
+            order = [1] * len(hs[1]) + [2] * len(hs[2])
+            random.Random(seed + 3).shuffle(order)
+            pos = {1: 0, 2: 0}
+            for i in order:
+                s.rx(i, hs[i][pos[i]])
+                pos[i] += 1
+        else:
+            i = which[0]
+            for f in hs[i]:
+                s.rx(i, f)
+        return s.text()
+
+    traces = {}
+    for name, which in (("both", [1, 2]), ("solo1", [1]), ("solo2", [2])):
+        sp, tp = work.path("p%d-%s.script" % (idx, name)), work.path("p%d-%s.ndjson" % (idx, name))
+        with open(sp, "w") as f:
+            f.write(script(which))
+        rc, err = vlib.run_harness(rbin, sp, tp)
+        if rc != 0:
+            rp = os.path.join(vlib.OUT, "replays", "C17-%d-pair-%s.script" % (seed, name))
+            with open(rp, "w") as f:
+                f.write("# replay property=C17 kind=responder check=%s\n" % ",".join(sorted(check)) + script(which))
+            return ("interleaved histories: harness rc=%s %s" % (rc, _san_summary(err)), rp), 0
+        with open(tp) as f:
+            traces[name] = [json.loads(l) for l in f if l.strip()]
+    solo = {1: [e for e in traces["solo1"] if e["e"] in ("boot", "req")], 2: [e for e in traces["solo2"] if e["e"] in ("boot", "req")]}
+    ptr = {1: 0, 2: 0}
+    merged = []
+    for e in traces["both"]:
+        if e["e"] not in ("boot", "req"):
+            continue
+        i = e["ifc"]
+        merged.append(e)
+        se = dict(solo[i][ptr[i]])
+        ptr[i] += 1
+        se["ifc"] = i + 2
+        if se["e"] == "req":
+            se["eq"] = 1
+            for it in se["out"]:
+                if it.get("k") == "t":
+                    it["ifc"] = i + 2
+        merged.append(se)
+    merged.append({"e": "end", "ln": 0})
+    mp = work.path("p%d-merged.ndjson" % idx)
+    with open(mp, "w") as f:
+        for e in merged:
+            f.write(json.dumps(e) + "\n")
+    v = vlib.validate_trace(work.dir, mp, check, tag="p%d" % idx)
+    if v["accepted"]:
+        for n in ("both", "solo1", "solo2"):
+            os.remove(work.path("p%d-%s.ndjson" % (idx, n)))
+        os.remove(mp)
+        return None, v["events"]
+    rp = os.path.join(vlib.OUT, "replays", "C17-%d-pair.script" % seed)
+    with open(rp, "w") as f:
+        f.write("# replay property=C17 kind=c17-pair check=%s seed=%d\n" % (",".join(sorted(check)), seed) + script([1, 2]))
+    return ("interleaved histories: interface trace differs from its solo trace or from the specification (merged event %d)" % v["rejected_at"], rp), v.get("events", 0)
+
+
+REGISTRY = {"C17": c17, "C11": c11, "C12": c12, "C13": c13, "C14": c14, "C15": c15, "C16": c16, "C01": c01, "C02": c02, "C03": c03, "C04": c04, "C05": c05, "C06": c06, "C07": c07, "C08": c08, "C09": c09, "C10": c10, "C18": c18, "C19": c19}
 
 
 # =========================================================================== replay
 def replay(path):
     with open(path) as f:
         lines = f.read().split("\n")
-    m = re.match(r"# replay property=(\S+) kind=(\S+) check=(\S*)", lines[0])
+    m = re.match(r"# replay property=(\S+) kind=(\S+) check=(\S*)(?: seed=(\d+))?", lines[0])
     if not m:
         raise Infra("not a replay file: " + path)
     prop, kind, check = m.group(1), m.group(2), set(x for x in m.group(3).split(",") if x)
@@ -382,6 +654,32 @@ def replay(path):
     elif kind == "automata":
         binp = vlib.build_automata("asan")
         bad, why = confirm(work, binp, check, sc, module="AutomataTrace.tla")
+    elif kind == "registry-sched":
+        binp = vlib.build_registry("asan")
+        threads = int([l for l in body if l.startswith("THREADS")][0].split()[1])
+        calls = int([l for l in body if l.startswith("CALLS")][0].split()[1])
+        sp, tp = work.path("r.script"), work.path("r.ndjson")
+        with open(sp, "w") as f:
+            f.write("\n".join(body) + "\n")
+        rc, so, se = vlib.sh([binp, "sched", sp, tp], timeout=600, env={"ASAN_OPTIONS": "detect_leaks=0"})
+        if rc != 0:
+            bad, why = True, "harness rc=%s %s" % (rc, _san_summary(se))
+        else:
+            tcfg = _registry_cfg(work, "r.cfg", threads, calls, False, "CONSTRAINT AlongRecorded\nINVARIANT Conformance\nPOSTCONDITION AllMatched\n")
+            rt = vlib.tlc_run(work.dir, "RegistryTrace.tla", tcfg, workers=1, env={"TRACE": tp}, timeout=600)
+            tags = re.findall(r'<<"(LOST-NEW|LOST-KNOWN|SHARED)", (\d+)>>', rt["out"])
+            bad, why = bool(tags), "outcomes: %s" % tags
+    elif kind == "registry-race":
+        tbin = vlib.build_registry("tsan")
+        rl = [l for l in body if l.startswith("RACE")][0].split()
+        rc, so, se = vlib.sh([tbin, "race", "60", work.path("r.ndjson"), rl[1], rl[2]], timeout=300,
+                             env={"TSAN_OPTIONS": "halt_on_error=0 report_signal_unsafe=0 exitcode=0"})
+        reps = _tsan_reports(se)
+        bad, why = bool(reps), json.dumps(reps[:3])
+    elif kind == "c17-pair":
+        rbin = vlib.build_responder("asan")
+        res, n = _c17_pair(work, rbin, check, int(m.group(4)), 0)
+        bad, why = (res is not None), (res[0] if res else "")
     else:
         raise Infra("unknown replay kind " + kind)
     if bad:
